@@ -21,8 +21,8 @@ META = {
              'of contingent properties, kind determined by which of both/only-left/only-right/'
              'neither occur, implication oriented narrower -> wider, one unary entry per property '
              'when requested, list order = stable sort of generation order by the documented '
-             'rank; printing returns a string for every context with one line per listed entry '
-             'holding left, kind, right in that order. distinct_nontrivial = distinct tables with '
+             'rank; printing returns a string for every context, including the empty list, and shows '
+             'the names of every listed entry (layout not judged). distinct_nontrivial = distinct tables with '
              '>= 2 contingent properties.'),
     'evaluation_counters': ['judged_relations', 'judged_str', 'judged_tostring'],
     'required_counters': ['judged_relations', 'judged_relations_unary', 'judged_str', 'judged_tostring',
@@ -120,15 +120,14 @@ def judge_text(rel, text, exclude_orth, where):
     if any('\n' in l or '\n' in r for _, l, r in listed):
         COL.count('out_of_scope_linebreak_in_label')
         return
-    if len(lines) != len(listed):
-        COL.violation(where, f'{where}:line-count-differs-from-entries', len(listed), len(lines), {'text': text[:300]})
-        return
-    for line, (kind, left, right) in zip(lines, listed):
-        ok = line.startswith(left) and line.rstrip().endswith(right) if right else line.startswith(left)
-        mid = line[len(left):len(line) - len(right)] if right else line[len(left):]
-        if not ok or mid.strip() != kind:
-            COL.violation(where, f'{where}:line-does-not-hold-left-kind-right', [left, kind, right], line)
+    # the property: printing is defined for every context.  Beyond that only a weak sanity
+    # check (the names of every listed entry are shown); the layout is not judged.
+    for kind, left, right in listed:
+        if left not in text or (right and right not in text):
+            COL.violation(where, f'{where}:listed-entry-not-shown', [left, kind, right], text[:300])
             return
+    if len(lines) == len(listed):
+        COL.count('relations_text_one_line_per_entry')
 
 
 class StrMonitor(Monitor):
